@@ -3,5 +3,15 @@ from specs import gc, loc
 
 LEVEL = 'proof'
 UNITS = [gc.delete_unit('C08'), gc.clean_unit('C08')] + loc.loc_units('C08') + loc.parts_units('C08') + [loc.chunk_loc_unit('C08')]
-TRUSTED = []
-ASSUMPTIONS = []
+BOUNDED = []
+TRUSTED = [
+    'vf symbolic executor (/verif/vf): encoding of the Python subset (DESIGN 2.2)',
+    'z3 5.1 (API + z3-new CLI), cvc5 1.0.3 (strings)',
+]
+ASSUMPTIONS = ['backend interface as in C02', 'hex strings contain neither "/" nor "-" and tags have >= 3 (chunks) / >= 1 (snapshots) characters', 'posixpath.join modelled by its stdlib algorithm (audited)', 'str.rpartition / rsplit characterised by unique decomposition', 'the chunk and snapshot areas contain only objects written by replicat (premise)']
+MANIFEST = {
+    'text': 'Deductive proof of exact deletion sets (equalities, not inclusions) for delete and clean over all loaded-snapshot sets and listings, of confinement to listed chunk locations / named snapshot paths, and of the inverse relation between the location builders and parsers (string VCs, cvc5).',
+    'note': 'Trusted: vf engine, SMT solvers (cvc5 decides the string VCs), assumed backend interface and stdlib string contracts.',
+    'technique': 'contract-based deductive verification: sidecar contracts + loop invariants on the real functions, VCs by symbolic execution of the AST, discharged by z3/cvc5',
+    'design_ref': 'DESIGN.md 6/C08',
+}
